@@ -50,6 +50,7 @@ namespace Clipper2Lib {
     ClipperD clipper(precision);
     clipper.AddSubject(subjects);
     clipper.AddClip(clips);
+    if (clipper.ErrorCode()) return result; // eg range error (exceptions disabled)
     clipper.Execute(cliptype, fillrule, result);
     return result;
   }
@@ -65,6 +66,7 @@ namespace Clipper2Lib {
     ClipperD clipper(precision);
     clipper.AddSubject(subjects);
     clipper.AddClip(clips);
+    if (clipper.ErrorCode()) return; // eg range error (exceptions disabled)
     clipper.Execute(cliptype, fillrule, polytree);
   }
 
@@ -105,6 +107,7 @@ namespace Clipper2Lib {
     if (error_code) return result;
     ClipperD clipper(precision);
     clipper.AddSubject(subjects);
+    if (clipper.ErrorCode()) return result; // eg range error (exceptions disabled)
     clipper.Execute(ClipType::Union, fillrule, result);
     return result;
   }
